@@ -47,9 +47,19 @@ def finalize(mod, tier, seed, results, wall, extra_acc=None, t_start=None):
     for label, acc in list(results.items()) + ([("<extra>", extra_acc)] if extra_acc else []):
         for cx in acc.cex:
             all_cex.append((label, cx))
+    import signal
+
+    def _alarm(signum, frame):
+        raise TimeoutError("replay exceeded 60 s")
+
+    signal.signal(signal.SIGALRM, _alarm)
     for label, cx in all_cex:
         try:
-            rep = mod.replay(cx)
+            signal.alarm(60)
+            try:
+                rep = mod.replay(cx)
+            finally:
+                signal.alarm(0)
         except Exception:
             rep = dict(reproduced=None, what="replay crashed: " + traceback.format_exc(limit=6), key="replay-crash")
         key = rep.get("key") or cx["ob"]
